@@ -187,21 +187,123 @@ def model_value(m, t):
         return None
 
 
-def check(C: Ctx, claim, timeout_ms=60000, extra=(), inputs=None, with_uf=True, with_mono=True, cons=None):
-    """Is `claim` implied by the context? -> ('unsat'|'sat'|'unknown', time, model dict)"""
+_VARS = {}
+
+
+def vars_of(e):
+    k = e.get_id()
+    hit = _VARS.get(k)
+    if hit is not None and hit[0].eq(e):
+        return hit[1]
+    acc = set()
+    todo, seen = [e], set()
+    while todo:
+        x = todo.pop()
+        i = x.get_id()
+        if i in seen:
+            continue
+        seen.add(i)
+        if z3.is_const(x) and x.decl().kind() == z3.Z3_OP_UNINTERPRETED:
+            acc.add(x.decl().name())
+        else:
+            todo.extend(x.children())
+    _VARS[k] = (e, acc)
+    return acc
+
+
+def relevance_levels(cons, goal_terms, max_levels=4):
+    """Cone-of-influence layers: constraints sharing variables with the goal, then with those, ..."""
+    need = set()
+    for g in goal_terms:
+        need |= vars_of(g)
+    fv = [(f, vars_of(f)) for f in cons]
+    used = [False] * len(fv)
+    levels = []
+    for _ in range(max_levels):
+        new = [i for i, (f, v) in enumerate(fv) if not used[i] and (v & need or not v)]
+        if not new:
+            break
+        for i in new:
+            used[i] = True
+            need |= fv[i][1]
+        levels.append([f for (f, _v), u in zip(fv, used) if u])
+        if all(used):
+            break
+    return levels
+
+
+def narrow_closure(cons, goal_terms, max_new, rounds=6):
+    """Constraints reachable from the goal's variables through constraints that introduce at
+    most `max_new` new variables each (keeps big, entangling constraints out)."""
+    cur = set()
+    for g in goal_terms:
+        cur |= vars_of(g)
+    hub = {"pi"}  # ubiquitous symbols do not count as a connection
+    cur -= hub
+    fv = [(f, vars_of(f) - hub) for f in cons]
+    used = [False] * len(fv)
+    # the first constraint mentioning a fresh variable (name!k) is its definition: always unfolded
+    first = {}
+    for i, (_f, v) in enumerate(fv):
+        for n in v:
+            if "!" in n and n not in first:
+                first[n] = i
+    defs = {}
+    for n, i in first.items():
+        defs.setdefault(i, set()).add(n)
+    for _ in range(rounds):
+        changed = False
+        for i, (f, v) in enumerate(fv):
+            if used[i]:
+                continue
+            if not v or (v & cur and len(v - cur) <= max_new) or (i in defs and defs[i] & cur):
+                used[i] = True
+                changed = True
+                cur |= v
+        if not changed:
+            break
+    return [f for (f, _v), u in zip(fv, used) if u]
+
+
+def check(C: Ctx, claim, timeout_ms=60000, extra=(), inputs=None, with_uf=True, with_mono=True, cons=None, staged=True):
+    """Is `claim` implied by the context? -> ('unsat'|'sat'|'unknown', time, model dict).
+    Goal-directed: the negated claim is first tried against growing cone-of-influence subsets
+    of the constraints (any `unsat` on a subset is a sound verdict), then against all of them."""
     if isinstance(claim, SV):
         claim = claim.term()
-    s = mk_solver(timeout_ms)
-    s.add(*(cons if cons is not None else base_constraints(C, with_uf, with_mono)))
-    s.add(*extra)
-    s.add(z3.Not(claim))
+    allc = list(cons if cons is not None else base_constraints(C, with_uf, with_mono)) + list(extra)
     t = time.time()
-    try:
-        r = str(s.check())
-    except z3.Z3Exception as e:  # pragma: no cover
-        r = "unknown"
+    attempts = []
+    if staged and len(allc) > 40 and not (z3.is_true(claim) or z3.is_false(claim)):
+        seen_sizes = set()
+        for mn in (1, 2, 4):
+            sub = narrow_closure(allc, [claim], mn)
+            if len(sub) < len(allc) and len(sub) not in seen_sizes:
+                seen_sizes.add(len(sub))
+                attempts.append((sub, max(2000, timeout_ms // 10)))
+        lv = relevance_levels(allc, [claim])
+        for sub in lv:
+            if len(sub) >= len(allc):
+                break
+            if len(sub) not in seen_sizes:
+                seen_sizes.add(len(sub))
+                attempts.append((sub, max(2000, timeout_ms // 10)))
+    attempts.append((allc, timeout_ms))
+    r, s = "unknown", None
+    for sub, to in attempts:
+        s = mk_solver(to)
+        s.add(*sub)
+        s.add(z3.Not(claim))
+        try:
+            r = str(s.check())
+        except z3.Z3Exception:
+            r = "unknown"
+        C.queries += 1
+        if r == "unsat":
+            break
+        if sub is not allc:
+            r = "unknown"
     dt = time.time() - t
-    C.queries += 1
     C.solver_time += dt
     mdl = None
     if r == "sat" and inputs:
